@@ -559,6 +559,97 @@ func c16History(c *Ctx, src []byte, k int) {
 	c.Eval()
 }
 
+// ---- interning under VOLUME: whatever the process has lexed so far (total bytes, number of distinct tokens), the small
+// tokens handed out at the start are still THE objects for their (type, literal).
+const witnessSrc = "total = k9 + 1.5 \"s\" `r` counter // w\n/* b */ 0x1f"
+
+func witnessCheck(c *Ctx, first map[tkey]*token.Token, cs, when string) bool {
+	for _, lm := range []bool{false, true} {
+		for i, t := range lexPtrs([]byte(witnessSrc), lm) {
+			if t == nil {
+				continue
+			}
+			k := tkey{t.Type(), t.Literal()}
+			if old, ok := first[k]; ok && old != t {
+				c.Fail("intern-object-changed-after-volume", cs, fmt.Sprintf("%s: token %d %s (line mode %v) is no longer the object handed out at the start",
+					when, i, t.DebugString(), lm))
+				return false
+			} else if !ok {
+				first[k] = t
+			}
+		}
+	}
+	return true
+}
+
+// c16Volume variant: "strings" = many inputs `counter = "<1 MiB distinct string>"`; "comments" = ONE input
+// `total = 1 /*a 17 MiB*/ /*b 17 MiB*/ total`; "idents" = inputs with 1e5..1e6 distinct identifiers and numbers.
+func c16Volume(c *Ctx, variant string) {
+	cs := "VOL " + variant
+	first := map[tkey]*token.Token{}
+	witnessCheck(c, first, cs, "start")
+	mib := 1 << 20
+	body := func(tag string, n int) string {
+		pat := tag + " 0123456789 abcdefghijklmnopqrstuvwxyz "
+		return strings.Repeat(pat, n/len(pat)+1)[:n]
+	}
+	switch variant {
+	case "strings":
+		n := 44
+		if c.Thorough() {
+			n = 100
+		}
+		for i := 0; i < n; i++ {
+			src := []byte("counter = \"" + body(fmt.Sprintf("s%d", i), mib) + "\"")
+			toks := lexPtrs(src, i%2 == 1)
+			if len(toks) < 3 || toks[0] == nil || toks[0] != first[tkey{token.IDENT, "counter"}] {
+				c.Fail("intern-object-changed-after-volume", cs, fmt.Sprintf("input %d (after %d MiB of distinct strings): IDENT counter is a new object", i, i))
+				return
+			}
+			if i%8 == 7 && !witnessCheck(c, first, cs, fmt.Sprintf("after %d MiB of distinct strings", i+1)) {
+				return
+			}
+		}
+	case "comments":
+		for _, lm := range []bool{false, true} {
+			tag := map[bool]string{false: "F", true: "L"}[lm]
+			src := []byte("total = 1 /*a" + tag + body("a"+tag, 17*mib) + "*/ /*b" + tag + body("b"+tag, 17*mib) + "*/ total")
+			toks := lexPtrs(src, lm)
+			if len(toks) != 7 || toks[0] == nil || toks[5] == nil || toks[0] != toks[5] {
+				c.Fail("intern-object-changed-after-volume", cs, fmt.Sprintf("one input (line mode %v) `total = 1 /*17 MiB*/ /*17 MiB*/ total`: the two IDENT total are different objects (%d tokens)", lm, len(toks)))
+				return
+			}
+			if !witnessCheck(c, first, cs, "after a 34 MiB input, line mode "+fmt.Sprint(lm)) {
+				return
+			}
+		}
+	case "idents":
+		n := 200000
+		if c.Thorough() {
+			n = 1000000
+		}
+		var b strings.Builder
+		for i := 0; i < n; i++ {
+			if i%20000 == 0 && i > 0 {
+				b.WriteString(" total ")
+				toks := lexPtrs([]byte(b.String()), (i/20000)%2 == 1)
+				if last := toks[len(toks)-2]; last != first[tkey{token.IDENT, "total"}] {
+					c.Fail("intern-object-changed-after-volume", cs, fmt.Sprintf("after %d distinct identifiers/numbers: IDENT total is a new object", i))
+					return
+				}
+				if !witnessCheck(c, first, cs, fmt.Sprintf("after %d distinct tokens", 2*i)) {
+					return
+				}
+				b.Reset()
+			}
+			fmt.Fprintf(&b, "vol_%d %d.%d ", i, i, i)
+		}
+	}
+	witnessCheck(c, first, cs, "end")
+	c.Count("volume=" + variant)
+	c.Eval()
+}
+
 func c16One(c *Ctx, src []byte) { c16OneX(c, src, c.ReplayCase != "") }
 
 // c16OneX: allCtors = judge the file mode through BOTH constructors (NewBytes and New) instead of a random one.
@@ -654,6 +745,7 @@ var corpus = []string{
 func runC16(c *Ctx) {
 	c.Rule = "exhaustive: every byte string of length <= 2 over all 256 byte values and of length <= L (3 quick / 4 thorough) over the " +
 		"29-symbol significant alphabet (incl. \\v \\f), both lexer modes; random longer inputs over a weighted alphabet; byte mutations of /repo/examples/*.gr. " +
+		"volume histories: witness tokens kept from the start compared by pointer after 44-100 MiB of distinct 1 MiB strings, one input with two 17 MiB comments per mode, 2e5-1e6 distinct identifiers/numbers. " +
 		"long tokens: identifier, integer, float, hex, both string kinds, both comment kinds, unterminated string / comment at every length 2^k-1..2^k+1 (k=4..16) and around 1000/1024/4096/65536, twice per input, both modes (over 2048 bytes: direct oracle only). " +
 		"special first bytes: BOMs, shebang, magic and multi-byte prefixes (whole/truncated) x bodies and all strings of length <= 3/4 over 15 lead bytes, through New, NewBytes and NewLineMode, Pos() judged against the caller's buffer. " +
 		"structured numbers: every combination of prefix (0x 0X 0b 0o), digits/underscores, dot, fraction, exponent marker e E p P, sign, exponent digits and a following non-digit, alone and inside expressions. " +
@@ -678,6 +770,10 @@ func runC16(c *Ctx) {
 	}
 	if c.ReplayCase != "" {
 		f := strings.Fields(c.ReplayCase)
+		if len(f) == 2 && f[0] == "VOL" {
+			c16Volume(c, f[1])
+			return
+		}
 		if len(f) == 3 && f[0] == "HIST" {
 			k := 0
 			fmt.Sscan(f[1], &k)
@@ -907,5 +1003,9 @@ func runC16(c *Ctx) {
 			}
 			c16One(c, b)
 		}
+	}
+	// volume last: 44-100 MiB of distinct strings across inputs, one 34 MiB input per mode, 2e5-1e6 distinct small tokens
+	for _, v := range []string{"idents", "strings", "comments"} {
+		c16Volume(c, v)
 	}
 }
